@@ -37,7 +37,8 @@ ASSUMPTIONS = [
     'other-species atom (perpendicular distance 0) -- those jumps are treated as "either answer accepted" and the '
     'observed behaviour is recorded in the outcomes',
     'obstruction is the documented one: another species\' atom whose perpendicular foot lies inside the closed jump '
-    'segment and whose perpendicular distance is below the request; atoms beyond the segment ends never obstruct',
+    'segment and whose perpendicular distance is below the request; atoms beyond the segment ends never obstruct; an atom '
+    'whose foot is EXACTLY a segment end is a tie (either answer accepted) when it alone decides the verdict',
     'per-species requests are lists (the only container the code/docstring accept); the entry of the mobile species itself '
     'must be ignored and is set to 7.0',
     'Crystal.G is trusted to consist of symmetry operations (C18); site images are recomputed here from rot/trans only',
@@ -67,8 +68,11 @@ def base_crystal(name):
     return EXTRA[name]() if name in EXTRA else catalog.get(name)
 
 
-def all_names():
-    return list(catalog.CAT) + list(EXTRA)
+QUICK_SKIP = {'B2AB_O', 'B2AOB'}     # three species x 6 interstitial sites: the closestdistance product costs minutes (thorough only)
+
+
+def all_names(tier='thorough'):
+    return [n for n in list(catalog.CAT) + list(EXTRA) if not (tier == 'quick' and n in QUICK_SKIP)]
 
 
 def build(name, mk):
@@ -85,14 +89,17 @@ def build(name, mk):
 
 # quick tier: crystals with several species (large obstruction alphabets) or many mobile atoms get 4 re-descriptions
 # instead of 9 (the lists are written into BOUNDS); thorough: THOROUGH_SHORT crystals use the full quick list
-QUICK_SHORT = {'PYROPE', 'HCP_OT', 'BCC_T', 'PEROV3', 'TETP3', 'NBO', 'FCC_OT', 'FCC_O', 'FCC_T', 'BCC_O', 'B2AB', 'WURTZ2'}
-THOROUGH_SHORT = {'PYROPE', 'HCP_OT', 'BCC_T', 'PEROV3', 'TETP3', 'NBO', 'FCC_OT'}
+QUICK_SHORT = {'PYROPE', 'HCP_OT', 'BCC_T', 'PEROV3', 'TETP3', 'NBO', 'FCC_OT', 'FCC_O', 'FCC_T', 'BCC_O', 'B2AB', 'WURTZ2',
+               'OT_FCC', 'TET4I', 'PMMM_G', 'TRIC2NR', 'PM_TILT', 'P1_3', 'RECTMX'}
+QUICK_TINY = {'PYROPE', 'BCC_T', 'HCP_OT', 'OT_FCC', 'FCC_OT', 'PEROV3', 'TETP3'}
+THOROUGH_SHORT = {'PYROPE', 'HCP_OT', 'BCC_T', 'PEROV3', 'TETP3', 'NBO', 'FCC_OT', 'OT_FCC', 'B2AB_O', 'B2AOB', 'TET4I', 'PMMM_G'}
 
 
 def matrices_for(name, dim, tier):
     if tier == 'quick':
         ms = [bv.mkey(M) for M in bv.redescriptions(dim, 'quick')]
-        if name in QUICK_SHORT: ms = [ms[1], ms[dim + 1], ms[dim + 2], ms[dim + 4]]   # E_01, E_0d(-1), big[0], big[2]
+        if name in QUICK_SHORT: ms = [ms[1], ms[dim + 1], ms[dim + 4]]   # E_01, E_0d(-1), big[2] (big[0] costs minutes on multi-species cells)
+        if name in QUICK_TINY: ms = ms[:2]      # many-atom cells: catalogue description + two elementary shears only
     else:
         ms = [bv.mkey(M) for M in bv.redescriptions(dim, 'quick' if name in THOROUGH_SHORT else 'thorough')]
     return ['cat'] + ms
@@ -105,7 +112,7 @@ def _dims():
 def BOUNDS(tier):
     d3 = [bv.mkey(M) for M in bv.redescriptions(3, tier)]
     d2 = [bv.mkey(M) for M in bv.redescriptions(2, tier)]
-    return {'crystals': all_names(), 'redescriptions_3d': ['cat'] + d3, 'redescriptions_2d': ['cat'] + d2,
+    return {'crystals': all_names(tier), 'redescriptions_3d': ['cat'] + d3, 'redescriptions_2d': ['cat'] + d2,
             'fewer_redescriptions': ({'crystals': sorted(QUICK_SHORT), 'list': matrices_for('NBO', 3, 'quick')} if tier == 'quick' else
                                      {'crystals': sorted(THOROUGH_SHORT), 'list': matrices_for('NBO', 3, 'thorough')}),
             'species': 'every species of every crystal',
@@ -122,7 +129,7 @@ def BOUNDS(tier):
 def cases(tier):
     out = []
     dims = _dims()
-    for name in all_names():
+    for name in all_names(tier):
         base = base_crystal(name)
         for mk in matrices_for(name, dims[name], tier):
             for chem in range(base.Nchem):
@@ -195,8 +202,12 @@ def check_network(crys, chem, cutoff, arg, thr, ref, perp, G):
             st = 2 if d < thr[c] - TOL else (1 if abs(d - thr[c]) <= TOL else 0)
             state = max(state, st)
             if not end: state_noend = max(state_noend, st)
-        (must, tie, forbid)[state].add(k)
-        if state != state_noend: endsens.add(k)
+        if state != state_noend:
+            # the verdict hinges on an atom whose perpendicular foot is exactly a segment end: the package decides with an
+            # exact floating-point comparison (0 <= x.dx <= dx.dx), so on a rotated cell round-off picks the side: a tie
+            endsens.add(k); tie.add(k)
+        else:
+            (must, tie, forbid)[state].add(k)
     flat = [jkey(i, j, dx) for cl in jn for (i, j), dx in cl]
     got = set(flat)
     if len(flat) != len(got):
